@@ -72,6 +72,25 @@ impl Cfg {
         }
     }
 
+    /// configurations at the edge of what validation accepts (C16)
+    pub fn random_extreme(rng: &mut Rng) -> Cfg {
+        let mut c = Cfg::random(rng);
+        if rng.chance(1, 3) {
+            c.fee_rate = *rng.pick(&[100_001u128, u128::MAX, 1u128 << 64, 1u128 << 127, 100_000]);
+        }
+        if rng.chance(1, 4) {
+            c.batch_period = *rng.pick(&[0u64, u64::MAX, u64::MAX - 1_700_000_000, (u64::MAX / 2)]);
+        }
+        if rng.chance(1, 4) {
+            c.unbonding = *rng.pick(&[0u64, u64::MAX, u64::MAX - 1_700_000_000]);
+        }
+        if rng.chance(1, 5) {
+            c.min_stake = *rng.pick(&[0u128, u128::MAX, 1u128 << 100]);
+        }
+        c.n_monitors = rng.range(0, 3) as usize;
+        c
+    }
+
     pub fn random(rng: &mut Rng) -> Cfg {
         let prefixes = ["osmo", "osmo", "osmo", "init", "mw", "celestia", "a", "longprefixforprotocolchain"];
         let nprefixes = ["celestia", "celestia", "init", "osmo", "c", "nativechainwithlongprefix"];
@@ -117,6 +136,13 @@ pub enum Op {
     NativeMint { addr: String, #[serde(with = "u128s")] amount: u128 },
     NativeBurn { addr: String, #[serde(with = "u128s")] amount: u128 },
     OpenChannel { channel: String },
+    /// probes: executed on a throw-away clone of the world (hostile lane); only panics matter
+    QueryProbe { contract: String, msg: String },
+    SudoProbe { contract: String, msg: String },
+    ReplyProbe { contract: String, id: u64, ok: bool, data_hex: Option<String>, err: String },
+    MigrateProbe { contract: String, name: String, version: String, msg: String },
+    InstantiateProbe { kind: String, sender: String, msg: String },
+    ExecProbe { sender: String, contract: String, msg: String, #[serde(with = "funds_s")] funds: Vec<(String, u128)>, #[serde(with = "funds_s")] mint: Vec<(String, u128)> },
 }
 
 impl Op {
@@ -142,11 +168,17 @@ impl Op {
             Op::NativeMint { .. } => "native_mint".into(),
             Op::NativeBurn { .. } => "native_burn".into(),
             Op::OpenChannel { .. } => "open_channel".into(),
+            Op::QueryProbe { .. } => "probe:query".into(),
+            Op::SudoProbe { .. } => "probe:sudo".into(),
+            Op::ReplyProbe { .. } => "probe:reply".into(),
+            Op::MigrateProbe { .. } => "probe:migrate".into(),
+            Op::InstantiateProbe { .. } => "probe:instantiate".into(),
+            Op::ExecProbe { .. } => "probe:execute".into(),
         }
     }
     pub fn msg_value(&self) -> Value {
         match self {
-            Op::Exec { msg, .. } | Op::Hook { msg, .. } | Op::Sudo { msg, .. } => serde_json::from_str(msg).unwrap_or(Value::Null),
+            Op::Exec { msg, .. } | Op::Hook { msg, .. } | Op::Sudo { msg, .. } | Op::ExecProbe { msg, .. } | Op::QueryProbe { msg, .. } => serde_json::from_str(msg).unwrap_or(Value::Null),
             _ => Value::Null,
         }
     }
@@ -279,6 +311,38 @@ impl Sc {
                 self.w.open_channels.insert(channel.clone());
                 TxResult { ok: true, ..Default::default() }
             }
+            Op::QueryProbe { contract, msg } => {
+                let (r, panics) = self.w.query_raw(contract, msg);
+                TxResult { ok: r.is_ok(), err: r.err().unwrap_or_default(), panics, ..Default::default() }
+            }
+            Op::SudoProbe { contract, msg } => {
+                let mut w = self.w.clone();
+                w.sudo(contract, msg)
+            }
+            Op::ReplyProbe { contract, id, ok, data_hex, err } => {
+                let mut w = self.w.clone();
+                let data = data_hex.as_ref().map(|h| cosmwasm_std::Binary::from(unhex(h)));
+                let result = if *ok { cosmwasm_std::SubMsgResult::Ok(cosmwasm_std::SubMsgResponse { events: vec![], data }) } else { cosmwasm_std::SubMsgResult::Err(err.clone()) };
+                w.raw_reply(contract, cosmwasm_std::Reply { id: *id, result })
+            }
+            Op::MigrateProbe { contract, name, version, msg } => {
+                let mut w = self.w.clone();
+                set_version(&mut w, contract, name, version);
+                w.migrate(contract, msg)
+            }
+            Op::InstantiateProbe { kind, sender, msg } => {
+                let mut w = self.w.clone();
+                let k = if kind == "treasury" { Kind::Treasury } else { Kind::Staking };
+                let addr = addr32(&w.prefix.clone(), "probe-instance");
+                w.instantiate(k, sender, &addr, msg)
+            }
+            Op::ExecProbe { sender, contract, msg, funds, mint } => {
+                let mut w = self.w.clone();
+                for (d, a) in mint {
+                    w.mint_raw(sender, d, *a);
+                }
+                w.exec(sender, contract, msg, funds)
+            }
         }
     }
 
@@ -316,5 +380,17 @@ impl Sc {
 
     pub fn qy(&self, msg: Value) -> Result<Value, String> {
         self.w.query(&self.q, &msg.to_string())
+    }
+}
+
+pub fn unhex(h: &str) -> Vec<u8> {
+    (0..h.len() / 2).filter_map(|i| u8::from_str_radix(&h[2 * i..2 * i + 2], 16).ok()).collect()
+}
+
+/// cw2 contract_info record, written the way cw2 stores it (Item "contract_info", JSON)
+pub fn set_version(w: &mut World, contract: &str, name: &str, version: &str) {
+    if let Some(c) = w.contracts.get_mut(contract) {
+        let v = serde_json::json!({"contract": name, "version": version}).to_string();
+        c.store.m.insert(b"contract_info".to_vec(), v.into_bytes());
     }
 }
